@@ -656,6 +656,8 @@ MUTANTS = [
     {"name": "skip-catalyst-jac", "file": T, "old": "            for specidx in pspecidx:\n                for ri in rspecidx:\n                    rsymcopy = rsym.copy()", "new": "            for specidx in pspecidx:\n                if specidx in rspecidx:\n                    continue\n                for ri in rspecidx:\n                    rsymcopy = rsym.copy()", "rules": ["R1"]},
 ]
 BENIGN = [
+    {"name": "dense-decode-in-one-tuple-set", "file": DENSE, "old": "IJth(jmatrix, {{ (loop.index0/neqns) | int }}, {{ loop.index0%neqns }})",
+     "new": "{% set irow, icol = loop.index0 // neqns, loop.index0 % neqns -%}IJth(jmatrix, {{ irow }}, {{ icol }})"},
     {"name": "sentinel-as-named-class-and-module-constant", "edits": [
         {"file": T, "old": "    @dataclass\n    class GeneralInfo:\n", "new": "    _ZERO = \"0.0\"\n\n    @dataclass\n    class GeneralInfo:\n"},
         {"file": T, "old": "\nclass TemplateLoader:\n", "new": "\n_NO_TERM = \"0.0\"\n\n\nclass TemplateLoader:\n"},
